@@ -50,17 +50,22 @@ Qed.
 
 (* ---------- program-point predicates ---------- *)
 Definition isop (o : Z) : bool := o =? c_streamOpened.
+(* states out of which close() reports a LOCAL close: opened, and the local half-close made by Close() *)
+Definition isloc (o : Z) : bool := (o =? c_streamOpened) || (o =? v_streamLocalHalfClosed).
 (* inside the part of close() that runs only after the CAS to closed was won *)
 Definition c_needcl (c : cpc) : bool :=
   match c with CWait _ | CTbl _ | CPend _ | CRecv _ | CNotify | CSend => true | _ => false end.
 (* has taken the state out of `opened` by close() and not yet reported it (OnLocalClose site) *)
 Definition c_pendcb (c : cpc) : bool :=
-  match c with CWait o | CTbl o | CPend o | CRecv o => isop o | CNotify => true | _ => false end.
+  match c with CWait o | CTbl o | CPend o | CRecv o => isloc o | CNotify => true | _ => false end.
 Definition c_send (c : cpc) : bool := match c with CSend => true | _ => false end.
 Definition c_cleanT (c : cpc) : bool := match c with CWait _ | CTbl _ => true | _ => false end.
 Definition c_athalf (c : cpc) : bool := match c with KHalf => true | _ => false end.
 Definition c_ret (c : cpc) : bool := match c with KRet => true | _ => false end.
-Definition c_casbad (c : cpc) : bool := match c with CCas o => negb (isop o) | _ => false end.
+(* inside Close()/close() *)
+Definition c_busy (c : cpc) : bool := match c with KStart | KRet => false | _ => true end.
+(* past the first statement of Close() *)
+Definition c_past (c : cpc) : bool := match c with KStart => false | _ => true end.
 Definition gl (f : cpc -> bool) (g : gpc) : bool :=
   match g with GCbClose c | GClose c => f c | _ => false end.
 
@@ -77,13 +82,24 @@ Definition g_run (g : gpc) : bool := match g with GCbBody _ _ | GCbClose _ | GCb
 (* IsOpen() check passed, OnData not yet begun *)
 Definition g_cb (g : gpc) : bool := match g with GCb => true | _ => false end.
 Definition g_exit (g : gpc) : bool := match g with GExit => true | _ => false end.
+Definition g_all (g : gpc) : bool := true.
+(* will still reach the load of callbackCloseState, or is already on the exit path that runs close() *)
+Definition g_w (g : gpc) : bool :=
+  match g with GMove | GChk | GCb | GCbBody _ _ | GCbClose _ | GCbEnd | GClr | GLdCs | GWgDoneClose | GClose _ => true | _ => false end.
+Definition g_cbpast (g : gpc) : bool := match g with GCbClose c => c_past c | _ => false end.
+(* the exit path of the goroutine (entered only after it has read callbackWaitExit) *)
+Definition g_xc (g : gpc) : bool := match g with GWgDoneClose | GClose _ => true | _ => false end.
+(* close() on the exit path starts at its load of the state: these points do not occur *)
+Definition g_badclose (g : gpc) : bool := match g with GClose KStart | GClose KLdIn | GClose KHalf | GClose KRet => true | _ => false end.
 
 Definition e_proxy (e : epcT) : Z := match e with EWgAdd | ESpawn => 1 | _ => 0 end.
 Definition e_guard (e : epcT) : Z := match e with EChk | EGetCb | ECas | EWgAdd | ESpawn | EClrP => 1 | _ => 0 end.
 Definition e_clr (e : epcT) : Z := match e with EClrP | EClrR => 1 | _ => 0 end.
 Definition e_halfn (e : epcT) : Z := match e with EHalfN => 1 | _ => 0 end.
 Definition e_half (e : epcT) : Z := match e with EHalf => 1 | _ => 0 end.
-Definition s_store (p : spcT) : Z := match p with SStore => 1 | _ => 0 end.
+Definition s_proxy (p : spcT) : Z := match p with SWgAdd | SSpawn => 1 | _ => 0 end.
+Definition s_busy (p : spcT) : Z := match p with SCas | SWgAdd | SSpawn => 1 | _ => 0 end.
+Definition e_cas (e : epcT) : Z := match e with ECas | EWgAdd | ESpawn => 1 | _ => 0 end.
 
 Fixpoint ncl (l : list ev) : Z := match l with [] => 0 | EClose :: t => 1 + ncl t | _ :: t => ncl t end.
 Lemma ncl_app a b : ncl (a ++ b) = ncl a + ncl b.
@@ -93,13 +109,15 @@ Proof. induction l as [|[m|] l IH]; cbn [ncl]; lia. Qed.
 
 (* ---------- the state only moves forward ---------- *)
 Definition mono (s s' : est) : Prop :=
-  st s' = st s \/ (st s = c_streamOpened /\ st s' = c_streamHalfClosed) \/ (st s <> c_streamClosed /\ st s' = c_streamClosed).
+  st s' = st s \/ (st s = c_streamOpened /\ (st s' = c_streamHalfClosed \/ st s' = v_streamLocalHalfClosed)) \/
+  (st s <> c_streamClosed /\ st s' = c_streamClosed).
 
 Ltac zeq := repeat match goal with
   | |- context [?a =? ?b] => destruct (Z.eqb_spec a b)
   | |- context [?a <=? ?b] => destruct (Z.leb_spec a b)
   end.
-Ltac uc := unfold c_streamOpened, c_streamClosed, c_streamHalfClosed, v_callbackWaitExit, isop in *.
+Ltac uc := unfold v_callbackWaitExit, isop, isloc in *;
+  unfold c_streamOpened, c_streamClosed, c_streamHalfClosed, v_streamLocalHalfClosed, c_callbackWaitExit in *.
 
 Lemma cstep_mono s c : mono s (fst (cstep s c)).
 Proof.
@@ -130,7 +148,7 @@ Proof.
     destruct g as [| | |k cl|c| | | | | | | |c|]; cbn; try (left; reflexivity);
       try apply (cstep_mono s c); zeq; cbn; try destruct (recv s); try destruct (pending s); cbn; left; reflexivity.
   - unfold clstep. destruct (nth_error (clos s) i) as [c|]; [|left; reflexivity]. cbn. apply (cstep_mono s c).
-  - unfold sstep, mono. destruct (spc s); cbn; try destruct (cbset s) eqn:Ecb; cbn; lia.
+  - unfold sstep, mono. destruct (spc s); cbn; try destruct (cbset s) eqn:Ecb; zeq; cbn; lia.
   - unfold ustep, mono. destruct (nth_error (users s) i) as [u|]; [|lia].
     destruct (upc u); cbn; [destruct (utodo u); cbn; [lia|zeq; cbn; lia]|lia].
 Qed.
@@ -159,8 +177,8 @@ Ltac cb := cbn [step estep gstep clstep sstep ustep cstep setg clear_pending mov
   set_st set_inproc set_cstate set_wg set_cbset set_intable set_cnotify set_pending set_recv set_inbox set_epc
   set_gors set_clos set_spc set_users set_script set_processed set_arrived set_chunks set_consumed set_offers
   set_nlocal set_nremote set_out set_khalf set_lhalf set_casfail
-  b2z nz c_athalf c_needcl c_pendcb c_send c_cleanT c_ret c_casbad gl g_own g_re g_act g_run g_cb g_exit
-  e_proxy e_guard e_clr e_halfn e_half s_store upc utodo ures negb cz ncl] in *.
+  b2z nz c_athalf c_needcl c_pendcb c_send c_cleanT c_ret c_busy c_past gl g_own g_re g_act g_run g_cb g_exit g_all g_w g_cbpast g_xc g_badclose
+  e_proxy e_guard e_clr e_halfn e_half e_cas s_proxy s_busy upc utodo ures negb orb andb cz ncl] in *.
 
 Ltac cases s w :=
   destruct w as [|i|i| |i]; cbn [step];
@@ -202,18 +220,38 @@ Ltac zeqh := repeat match goal with
 
 Lemma b2z_range b : 0 <= b2z b <= 1.
 Proof. destruct b; simpl; lia. Qed.
-Lemma e_range e : 0 <= e_proxy e <= 1 /\ 0 <= e_guard e <= 1 /\ 0 <= e_clr e <= 1 /\ 0 <= e_halfn e <= 1 /\ 0 <= e_half e <= 1 /\ e_proxy e <= e_guard e.
+Lemma e_range e : 0 <= e_proxy e <= 1 /\ 0 <= e_guard e <= 1 /\ 0 <= e_clr e <= 1 /\ 0 <= e_halfn e <= 1 /\ 0 <= e_half e <= 1 /\ e_proxy e <= e_guard e /\ e_proxy e <= e_cas e <= 1.
 Proof. destruct e; simpl; lia. Qed.
+Lemma s_range p : 0 <= s_proxy p <= s_busy p /\ s_busy p <= 1.
+Proof. destruct p; simpl; lia. Qed.
+Lemma cz_le {A} (f g : A -> bool) l : (forall x, f x = true -> g x = true) -> cz f l <= cz g l.
+Proof.
+  intros H. induction l as [|a l IH]; simpl; [lia|].
+  destruct (f a) eqn:E; [rewrite (H a E); lia|destruct (g a); lia].
+Qed.
+Lemma le_athalf_past l : cz c_athalf l <= cz c_past l.
+Proof. apply cz_le. intros [] E; simpl in *; congruence. Qed.
+Lemma le_athalf_busy l : cz c_athalf l <= cz c_busy l.
+Proof. apply cz_le. intros [] E; simpl in *; congruence. Qed.
+Lemma le_own_w l : cz g_own l <= cz g_w l.
+Proof. apply cz_le. intros [] E; simpl in *; congruence. Qed.
+Lemma le_w_all l : cz g_w l <= cz g_all l.
+Proof. apply cz_le. intros g _; reflexivity. Qed.
 Ltac czpos s :=
   pose proof (b2z_range (lhalf s)); pose proof (b2z_range (khalf s)); pose proof (b2z_range (casfail s));
-  pose proof (b2z_range (intable s)); pose proof (e_range (epc s));
+  pose proof (b2z_range (intable s)); pose proof (e_range (epc s)); pose proof (s_range (spc s));
+  pose proof (b2z_range (cbset s));
+  pose proof (cz_nonneg c_busy (clos s)); pose proof (cz_nonneg c_past (clos s)); pose proof (cz_nonneg g_all (gors s));
+  pose proof (cz_nonneg g_w (gors s)); pose proof (cz_nonneg g_cbpast (gors s));
+  pose proof (cz_nonneg g_xc (gors s)); pose proof (cz_nonneg g_badclose (gors s));
+  pose proof (le_athalf_past (clos s)); pose proof (le_athalf_busy (clos s));
+  pose proof (le_own_w (gors s)); pose proof (le_w_all (gors s));
   pose proof (cz_nonneg c_athalf (clos s)); pose proof (cz_nonneg (gl c_athalf) (gors s));
   pose proof (cz_nonneg c_needcl (clos s)); pose proof (cz_nonneg (gl c_needcl) (gors s));
   pose proof (cz_nonneg c_pendcb (clos s)); pose proof (cz_nonneg (gl c_pendcb) (gors s));
   pose proof (cz_nonneg c_send (clos s)); pose proof (cz_nonneg (gl c_send) (gors s));
   pose proof (cz_nonneg c_cleanT (clos s)); pose proof (cz_nonneg (gl c_cleanT) (gors s));
-  pose proof (cz_nonneg c_ret (clos s)); pose proof (cz_nonneg c_casbad (clos s));
-  pose proof (cz_nonneg (gl c_casbad) (gors s));
+  pose proof (cz_nonneg c_ret (clos s));
   pose proof (cz_nonneg g_own (gors s)); pose proof (cz_nonneg g_re (gors s));
   pose proof (cz_nonneg g_act (gors s)); pose proof (cz_nonneg g_run (gors s));
   pose proof (cz_nonneg g_cb (gors s)); pose proof (ncl_nonneg (out s)); pose proof (ncl_nonneg (processed s)).
@@ -223,57 +261,59 @@ Ltac czin := match goal with
   | Hn : nth_error (clos _) _ = Some _ |- _ =>
       try (pose proof (cz_pos_in c_needcl _ _ _ Hn eq_refl)); try (pose proof (cz_pos_in c_pendcb _ _ _ Hn eq_refl));
       try (pose proof (cz_pos_in c_send _ _ _ Hn eq_refl)); try (pose proof (cz_pos_in c_cleanT _ _ _ Hn eq_refl));
-      try (pose proof (cz_pos_in c_ret _ _ _ Hn eq_refl)); try (pose proof (cz_pos_in c_athalf _ _ _ Hn eq_refl)); pose proof (cz_ge_in c_casbad _ _ _ Hn)
+      try (pose proof (cz_pos_in c_ret _ _ _ Hn eq_refl)); try (pose proof (cz_pos_in c_athalf _ _ _ Hn eq_refl));
+      try (pose proof (cz_pos_in c_busy _ _ _ Hn eq_refl)); try (pose proof (cz_pos_in c_past _ _ _ Hn eq_refl))
   | Hn : nth_error (gors _) _ = Some _ |- _ =>
       try (pose proof (cz_pos_in (gl c_needcl) _ _ _ Hn eq_refl)); try (pose proof (cz_pos_in (gl c_pendcb) _ _ _ Hn eq_refl));
       try (pose proof (cz_pos_in (gl c_send) _ _ _ Hn eq_refl)); try (pose proof (cz_pos_in (gl c_cleanT) _ _ _ Hn eq_refl));
       try (pose proof (cz_pos_in g_own _ _ _ Hn eq_refl)); try (pose proof (cz_pos_in g_re _ _ _ Hn eq_refl));
       try (pose proof (cz_pos_in g_act _ _ _ Hn eq_refl)); try (pose proof (cz_pos_in g_run _ _ _ Hn eq_refl));
-      try (pose proof (cz_pos_in g_cb _ _ _ Hn eq_refl)); try (pose proof (cz_pos_in (gl c_athalf) _ _ _ Hn eq_refl)); pose proof (cz_ge_in (gl c_casbad) _ _ _ Hn)
+      try (pose proof (cz_pos_in g_cb _ _ _ Hn eq_refl)); try (pose proof (cz_pos_in (gl c_athalf) _ _ _ Hn eq_refl));
+      try (pose proof (cz_pos_in g_all _ _ _ Hn eq_refl)); try (pose proof (cz_pos_in g_w _ _ _ Hn eq_refl));
+      try (pose proof (cz_pos_in g_cbpast _ _ _ Hn eq_refl)); try (pose proof (cz_pos_in g_xc _ _ _ Hn eq_refl));
+      try (pose proof (cz_pos_in g_badclose _ _ _ Hn eq_refl))
   | _ => idtac end.
 
 Ltac fin s :=
   cb; rw_eqs; rw_cnt; cb; try assumption; try (intros; assumption); uc; zeqh; uc; cb; try lia; czin; cb; uc; zeqh; uc; cb; try lia; czpos s; lia.
 
 (* ====================================================================================================
-   Base invariants (any initial callback mode)
+   Base invariants (any callback mode)
    ==================================================================================================== *)
 (* program-point facts *)
 Record InvP (s : est) : Prop := {
   b_needE : st s <> c_streamClosed -> e_clr (epc s) = 0;
   b_needC : st s <> c_streamClosed -> cz c_needcl (clos s) = 0;
   b_needG : st s <> c_streamClosed -> cz (gl c_needcl) (gors s) = 0;
-  b_casC : st s = c_streamOpened -> cz c_casbad (clos s) = 0;
-  b_casG : st s = c_streamOpened -> cz (gl c_casbad) (gors s) = 0;
-  b_st : st s = c_streamOpened \/ st s = c_streamHalfClosed \/ st s = c_streamClosed;
+  b_st : st s = c_streamOpened \/ st s = c_streamHalfClosed \/ st s = v_streamLocalHalfClosed \/ st s = c_streamClosed;
   b_tbl2 : b2z (intable s) = 0 -> st s = c_streamClosed }.
 
 Lemma stepP s w : InvP s -> InvP (step s w).
-Proof. intros [H1 H2 H3 H4 H5 H6 H7]. cases s w; brk; constructor; fin s. Qed.
+Proof. intros [H1 H2 H3 H6 H7]. cases s w; brk; constructor; fin s. Qed.
 
-(* close accounting: every departure from `opened` is reported exactly once — or it was the silent
-   local half-close of Close() (lhalf); the peer is told exactly when the OnLocalClose site is passed *)
+(* close accounting: every departure from `opened` is reported exactly once.  The local half-close made by
+   Close() while a callback runs is a debt (the state value itself records it) that the close() of the
+   goroutine's exit path pays: it treats oldState = localHalfClosed like opened.  The peer is told exactly
+   when the OnLocalClose site is passed. *)
 Record InvA (s : est) : Prop := {
-  b_acc : nlocal s + nremote s + e_halfn (epc s) + cz c_pendcb (clos s) + cz (gl c_pendcb) (gors s) + b2z (lhalf s)
+  b_acc : nlocal s + nremote s + e_halfn (epc s) + cz c_pendcb (clos s) + cz (gl c_pendcb) (gors s)
+          + b2z (st s =? v_streamLocalHalfClosed)
           = (if st s =? c_streamOpened then 0 else 1);
   b_nn : 0 <= nlocal s /\ 0 <= nremote s;
-  b_lh : b2z (lhalf s) <= b2z (khalf s);
-  b_kh : cz c_athalf (clos s) + cz (gl c_athalf) (gors s) = 0 \/ b2z (khalf s) = 1;
   b_sent : nlocal s = ncl (out s) + cz c_send (clos s) + cz (gl c_send) (gors s) }.
 
 Lemma stepA s w : InvA s -> InvA (step s w).
-Proof. intros [H1 [H2 H2'] H3 H3' H4]. cases s w; brk; constructor; fin s. Qed.
+Proof. intros [H1 [H2 H2'] H4]. cases s w; brk; constructor; fin s. Qed.
 
 (* session table, returned Close() calls, handled close notifications *)
 Record InvT (s : est) : Prop := {
   b_tbl : st s = c_streamClosed -> b2z (intable s) = 0 \/ cz c_cleanT (clos s) + cz (gl c_cleanT) (gors s) > 0;
   b_ret : st s = c_streamOpened -> cz c_ret (clos s) = 0;
-  b_ret2 : st s = c_streamClosed \/ b2z (khalf s) + b2z (casfail s) > 0 \/ cz c_ret (clos s) = 0;
   b_peer : ncl (processed s) > 0 -> st s <> c_streamOpened \/ e_half (epc s) = 1 }.
 
-Lemma stepT s w : InvP s -> InvA s -> InvT s -> InvT (step s w).
+Lemma stepT s w : InvP s -> InvT s -> InvT (step s w).
 Proof.
-  intros [P1 P2 P3 P4 P5 P6 P7] [A1 A2 A3 A4 A5] [H1 H2 H3 H4]. clear P1 P3 P5 A1 A2 A3 A5.
+  intros [P1 P2 P3 P6 P7] [H1 H2 H4]. clear P1 P3.
   cases s w; brk; constructor; fin s.
 Qed.
 
@@ -317,30 +357,78 @@ Ltac finL :=
 
 Lemma stepL s w : InvP s -> InvL s -> InvL (step s w).
 Proof.
-  intros [P1 P2 P3 P4 P5 P6 P7] [H1 H2 H3]. clear P4 P5 P7.
+  intros [P1 P2 P3 P6 P7] [H1 H2 H3]. clear P7.
   cases s w; brk; constructor; finL.
 Qed.
 
 (* ====================================================================================================
-   Callback-mode invariant (callbacks installed before the first event): the hand-off of
-   callbackInProcess between the event loop and the callback goroutines
+   The hand-off of callbackInProcess between the event loop, SetCallbacks and the callback goroutines
+   (any callback mode: callbacks installed from the start, later by SetCallbacks, or never)
    ==================================================================================================== *)
 Record InvC (s : est) : Prop := {
-  c_cb : cbset s = true;
-  c_spc : s_store (spc s) = 0;
-  (* the flag is exactly the number of owners: goroutines between winning it and clearing it, or the
-     event loop between winning it and the spawn *)
-  c_flag : inproc s = cz g_own (gors s) + e_proxy (epc s);
+  (* the flag is exactly the number of owners: goroutines between winning it and clearing it, or the event
+     loop / SetCallbacks between winning it and the spawn *)
+  c_flag : inproc s = cz g_own (gors s) + e_proxy (epc s) + s_proxy (spc s);
   c_01 : inproc s = 0 \/ inproc s = 1;
-  (* no stranding: unmoved pending data always has a guardian *)
-  c_P : nz (pending s) = 0 \/ cstate s <> 0 \/ e_guard (epc s) = 1 \/ cz g_own (gors s) + cz g_re (gors s) > 0;
+  (* no stranding: once callbacks are installed, unmoved pending data always has a guardian *)
+  c_P : nz (pending s) = 0 \/ cstate s <> 0 \/ e_guard (epc s) = 1 \/ cz g_own (gors s) + cz g_re (gors s) > 0 \/
+        b2z (cbset s) = 0 \/ s_busy (spc s) = 1;
   (* unread bytes in recvBuf of an open stream always have an owner that will still offer them *)
   c_Q : st s = c_streamOpened -> nz (recv s) = 0 \/ cz g_act (gors s) > 0 }.
 
 Lemma stepC s w : InvC s -> InvC (step s w).
+Proof. intros [H3 H4 H5 H6]. cases s w; brk; constructor; fin s. Qed.
+
+(* ====================================================================================================
+   A Close() always completes (callbacks either installed from the start or never installed during the run):
+   whoever is told to finish the close is still there to do it
+   ==================================================================================================== *)
+(* goroutine-side witnesses: threads that will still load callbackCloseState, or already run the exit close() *)
+Definition Wg (s : est) : Z := cz g_w (gors s) + e_proxy (epc s) + s_proxy (spc s).
+
+(* facts about the close state and the flag *)
+Record InvK1 (cb0 : bool) (s : est) : Prop := {
+  k_cb : b2z (cbset s) = b2z cb0;
+  k_cs01 : cstate s = 0 \/ cstate s = 1;
+  k_sp : s_busy (spc s) = 0;
+  (* without callbacks nothing ever takes the flag, and Close() does not store the close state *)
+  k_off : b2z cb0 = 0 -> inproc s = 0 /\ cstate s = 0 /\ e_cas (epc s) = 0 /\ cz g_all (gors s) = 0 /\ cz c_athalf (clos s) = 0;
+  (* with callbacks every Close() that is past its first statement has stored callbackWaitExit *)
+  k_cs : b2z cb0 = 1 -> cstate s = 1 \/ (cz c_past (clos s) = 0 /\ cz g_cbpast (gors s) = 0);
+  k_kh : b2z (khalf s) = 0 \/ cstate s = 1;
+  k_gc : cz g_xc (gors s) = 0 \/ cstate s = 1;
+  k_bad : cz g_badclose (gors s) = 0 }.
+
+Lemma stepK1 cb0 s w : (w = WSet -> b2z cb0 = 1) -> InvC s -> InvK1 cb0 s -> InvK1 cb0 (step s w).
 Proof.
-  intros [H1 H2 H3 H4 H5 H6]. cases s w; brk; constructor; fin s.
+  intros Hc [C1 C2 _ _] [K1 K2 K3 K4 K5 K6 K6a K6b]. pose proof (b2z_range cb0).
+  cases s w; try specialize (Hc eq_refl); brk; constructor; fin s.
 Qed.
+
+Record InvK2 (s : est) : Prop := {
+  (* a Close() that found callbackInProcess = 1 leaves the close to a thread that is still there *)
+  k_F : cz c_athalf (clos s) = 0 \/ st s = c_streamClosed \/ Wg s > 0;
+  k_R : cstate s = 0 \/ st s = c_streamClosed \/ cz c_busy (clos s) + Wg s > 0;
+  k_ret2 : st s = c_streamClosed \/ cz c_ret (clos s) = 0 \/ cstate s = 1 }.
+
+Ltac finK s := cb; rw_eqs; rw_cnt; cb; try assumption; czin; cb; uc; zeqh; uc; cb; try lia; czpos s; lia.
+Lemma stepK2 cb0 s w : (w = WSet -> b2z cb0 = 1) -> InvP s -> InvC s -> InvK1 cb0 s -> InvK2 s -> InvK2 (step s w).
+Proof.
+  intros Hc [_ P2 P3 _ _] [C1 C2 _ _] [K1 K2 K3 K4 K5 _ K6a K6b] [K7 K8 K9]. unfold Wg in *. pose proof (b2z_range cb0).
+  constructor; unfold Wg.
+  - clear P2 K2 K8 K9. cases s w; try specialize (Hc eq_refl); brk; finK s.
+  - clear K9. cases s w; try specialize (Hc eq_refl); brk; finK s.
+  - clear P3 C1 C2 K2 K6a K6b K7 K8. cases s w; try specialize (Hc eq_refl); brk; finK s.
+Qed.
+
+Record InvK (cb0 : bool) (s : est) : Prop := { k_1 : InvK1 cb0 s; k_2 : InvK2 s }.
+Lemma stepK cb0 s w : (cb0 = true \/ w <> WSet) -> InvP s -> InvC s -> InvK cb0 s -> InvK cb0 (step s w).
+Proof.
+  intros Hw HP HC [H1 H2].
+  assert (Hc : w = WSet -> b2z cb0 = 1) by (intros ->; destruct Hw as [->|Hw]; [reflexivity|congruence]).
+  constructor; [apply stepK1; auto|eapply stepK2; eauto].
+Qed.
+
 
 (* ====================================================================================================
    Every reachable state
@@ -355,33 +443,42 @@ Lemma initT cb0 inb n scr ups : InvT (init cb0 inb n scr ups).
 Proof. initc. Qed.
 Lemma initL cb0 inb n scr ups : InvL (init cb0 inb n scr ups).
 Proof. initc. Qed.
-Lemma initC inb n scr ups : InvC (init true inb n scr ups).
+Lemma initC cb0 inb n scr ups : InvC (init cb0 inb n scr ups).
 Proof. initc. Qed.
+Lemma initK cb0 inb n scr ups : InvK cb0 (init cb0 inb n scr ups).
+Proof.
+  constructor; [destruct cb0; initc|constructor; unfold Wg; cbn; rewrite ?cz_repeat_false by reflexivity; uc; lia].
+Qed.
 
-Record InvAll (s : est) : Prop := { a_P : InvP s; a_A : InvA s; a_T : InvT s; a_L : InvL s }.
+Record InvAll (s : est) : Prop := { a_P : InvP s; a_A : InvA s; a_T : InvT s; a_L : InvL s; a_C : InvC s }.
 
 Lemma stepAll s w : InvAll s -> InvAll (step s w).
 Proof.
-  intros [HP HA HT HL]. constructor;
-  [apply stepP; auto | apply stepA; auto | apply stepT; auto | apply stepL; auto].
+  intros [HP HA HT HL HC]. constructor;
+  [apply stepP; auto | apply stepA; auto | apply stepT; auto | apply stepL; auto | apply stepC; auto].
 Qed.
 Lemma runAll sched s : InvAll s -> InvAll (run sched s).
 Proof. revert s; induction sched as [|w l IH]; simpl; intros s H; auto. apply IH, stepAll, H. Qed.
-Lemma runC sched s : InvC s -> InvC (run sched s).
-Proof. revert s; induction sched as [|w l IH]; simpl; intros s H; auto. apply IH, stepC, H. Qed.
 Lemma initAll cb0 inb n scr ups : InvAll (init cb0 inb n scr ups).
-Proof. constructor; [apply initP|apply initA|apply initT|apply initL]. Qed.
+Proof. constructor; [apply initP|apply initA|apply initT|apply initL|apply initC]. Qed.
+
+(* callbacks are installed from the start, or SetCallbacks is not called during the run *)
+Definition cb_stable (cb0 : bool) (sched : list who) : Prop := cb0 = true \/ ~ In WSet sched.
+Lemma runK cb0 sched s : cb_stable cb0 sched -> InvAll s -> InvK cb0 s -> InvK cb0 (run sched s).
+Proof.
+  revert s; induction sched as [|w l IH]; simpl; intros s Hs HA HK; auto.
+  apply IH.
+  - destruct Hs as [Hs|Hs]; [left; auto|right; intros Hi; apply Hs; right; exact Hi].
+  - apply stepAll, HA.
+  - apply stepK; [|apply HA|apply HA|exact HK].
+    destruct Hs as [Hs|Hs]; [left; auto|right; intros ->; apply Hs; left; reflexivity].
+Qed.
 
 (* ---------- list/count helpers for the statements ---------- *)
 Lemma cz_all_false {A} (f : A -> bool) l : (forall i x, nth_error l i = Some x -> f x = false) -> cz f l = 0.
 Proof.
   induction l as [|a l IH]; intros H; simpl; auto.
   rewrite (H 0%nat a eq_refl). rewrite IH; auto. intros i x Hx. apply (H (S i) x Hx).
-Qed.
-Lemma cz_le {A} (f g : A -> bool) l : (forall x, f x = true -> g x = true) -> cz f l <= cz g l.
-Proof.
-  intros H. induction l as [|a l IH]; simpl; [lia|].
-  destruct (f a) eqn:E; [rewrite (H a E); lia|destruct (g a); lia].
 Qed.
 Lemma cz_two {A} (f : A -> bool) l i j x y :
   nth_error l i = Some x -> nth_error l j = Some y -> f x = true -> f y = true -> i <> j -> 2 <= cz f l.
@@ -403,61 +500,65 @@ Qed.
    C20
    ==================================================================================================== *)
 Section C20.
-Variables (inb : list ev) (ncl : nat) (scr : list (nat * bool)) (ups : list (list (list Z))).
-Let s0 := init true inb ncl scr ups.
+Variables (cb0 : bool) (inb : list ev) (ncl_ : nat) (scr : list (nat * bool)) (ups : list (list (list Z))).
+Let s0 := init cb0 inb ncl_ scr ups.
 
 (* OnData never overlaps itself: at most one thread owns callbackInProcess, and only owners run OnData *)
 Theorem serial sched :
   let s := run sched s0 in
-  cz g_own (gors s) + e_proxy (epc s) <= 1 /\ cz g_run (gors s) <= 1 /\
+  cz g_own (gors s) + e_proxy (epc s) + s_proxy (spc s) <= 1 /\ cz g_run (gors s) <= 1 /\
   (forall i j gi gj, nth_error (gors s) i = Some gi -> nth_error (gors s) j = Some gj ->
                      g_own gi = true -> g_own gj = true -> i = j).
 Proof.
-  intros s. pose proof (runC sched s0 (initC inb ncl scr ups)) as H. fold s in H.
-  destruct H as [_ _ Hf H01 _ _].
-  assert (Ho : cz g_own (gors s) + e_proxy (epc s) <= 1) by lia.
-  pose proof (e_range (epc s)) as He.
+  intros s. pose proof (runAll sched s0 (initAll _ _ _ _ _)) as H. fold s in H.
+  destruct H as [_ _ _ _ [Hf H01 _ _]].
+  assert (Ho : cz g_own (gors s) + e_proxy (epc s) + s_proxy (spc s) <= 1) by lia.
+  pose proof (e_range (epc s)) as He. pose proof (s_range (spc s)) as Hs.
   split; [exact Ho|split].
   - assert (cz g_run (gors s) <= cz g_own (gors s)) by (apply cz_le; intros [] E; simpl in *; congruence). lia.
   - intros i j gi gj Hi Hj Gi Gj. destruct (Nat.eq_dec i j) as [|Hne]; auto.
     pose proof (cz_two g_own (gors s) i j gi gj Hi Hj Gi Gj Hne). lia.
 Qed.
 
-(* no stranding *)
+(* no stranding (callbacks installed) *)
 Theorem no_strand sched :
   let s := run sched s0 in
-  pending s <> [] -> st s = c_streamOpened -> cstate s = 0 ->
+  cbset s = true -> pending s <> [] -> st s = c_streamOpened -> cstate s = 0 ->
   (forall i g, nth_error (gors s) i = Some g -> g_own g = false) ->
   (epc s = EChk \/ epc s = EGetCb \/ epc s = ECas \/ epc s = EWgAdd \/ epc s = ESpawn) \/
+  (spc s = SCas \/ spc s = SWgAdd \/ spc s = SSpawn) \/
   (exists i g, nth_error (gors s) i = Some g /\ g_re g = true).
 Proof.
-  intros s Hp Hst Hcs Hno.
-  pose proof (runC sched s0 (initC inb ncl scr ups)) as H. fold s in H.
-  pose proof (runAll sched s0 (initAll true inb ncl scr ups)) as HA. fold s in HA.
-  destruct H as [_ _ _ _ HP _]. destruct HA as [[HE _ _ _ _ _ _] _ _ _].
+  intros s Hcb Hp Hst Hcs Hno.
+  pose proof (runAll sched s0 (initAll _ _ _ _ _)) as HA. fold s in HA.
+  destruct HA as [[HE _ _ _ _] _ _ _ [_ _ HP _]].
   assert (Ho : cz g_own (gors s) = 0) by (apply cz_all_false; exact Hno).
   assert (Hnz : nz (pending s) <> 0) by (destruct (pending s); simpl; [congruence|lia]).
-  destruct HP as [HP|[HP|[HP|HP]]]; try congruence.
+  rewrite Hcb in HP. cbn [b2z] in HP.
+  destruct HP as [HP|[HP|[HP|[HP|[HP|HP]]]]]; try congruence; try lia.
   - left. assert (Hc : e_clr (epc s) = 0) by (apply HE; uc; lia).
     destruct (epc s); simpl in *; auto; try lia.
-  - right. apply cz_exists. lia.
+  - right. right. apply cz_exists. lia.
+  - right. left. destruct (spc s); simpl in HP; auto; lia.
 Qed.
 
-(* at quiescence with the stream open and no Close() issued, everything that arrived was consumed by OnData *)
+(* at quiescence with callbacks installed, the stream open and no Close() issued, everything that arrived
+   was consumed by OnData *)
 Theorem quiescent sched :
   let s := run sched s0 in
+  cbset s = true -> (spc s = SIdle \/ spc s = SDone) ->
   epc s = EIdle -> (forall i g, nth_error (gors s) i = Some g -> g = GExit) ->
   st s = c_streamOpened -> cstate s = 0 ->
   pending s = [] /\ recv s = [] /\ consumed s = arrived s.
 Proof.
-  intros s He Hg Hst Hcs.
-  pose proof (runC sched s0 (initC inb ncl scr ups)) as H. fold s in H.
-  pose proof (runAll sched s0 (initAll true inb ncl scr ups)) as HA. fold s in HA.
-  destruct H as [_ _ _ _ HP HQ]. destruct HA as [_ _ _ [LA LB LC]].
+  intros s Hcb Hsp He Hg Hst Hcs.
+  pose proof (runAll sched s0 (initAll _ _ _ _ _)) as HA. fold s in HA.
+  destruct HA as [_ _ _ [LA LB LC] [_ _ HP HQ]].
   assert (Ho : cz g_own (gors s) = 0) by (apply cz_all_false; intros i g Hi; rewrite (Hg i g Hi); reflexivity).
   assert (Hr : cz g_re (gors s) = 0) by (apply cz_all_false; intros i g Hi; rewrite (Hg i g Hi); reflexivity).
   assert (Ha : cz g_act (gors s) = 0) by (apply cz_all_false; intros i g Hi; rewrite (Hg i g Hi); reflexivity).
-  rewrite He in HP. simpl in HP.
+  rewrite He, Hcb in HP. cbn [e_guard b2z] in HP.
+  assert (Hsb : s_busy (spc s) = 0) by (destruct Hsp as [-> | ->]; reflexivity).
   assert (Hp : pending s = []) by (apply nz_nil; lia).
   assert (Hrv : recv s = []) by (apply nz_nil; specialize (HQ Hst); lia).
   repeat split; auto.
@@ -489,7 +590,7 @@ Lemma stop_step s w : st s <> c_streamOpened ->
   olen (step s w) + cz g_cb (gors (step s w)) <= olen s + cz g_cb (gors s).
 Proof.
   intros Hst. unfold olen. cases s w; brk; cb; rw_cnt; rewrite ?app_length, ?Nat2Z.inj_add; cbn [length]; cb;
-    try lia; try congruence.
+    try lia; try congruence; uc; zeqh; cb; lia.
 Qed.
 Theorem stop cb0 inb ncl scr ups sched sched' :
   let s := run sched (init cb0 inb ncl scr ups) in
@@ -520,7 +621,7 @@ Proof. revert s; induction sched as [|w l IH]; simpl; intros s H; auto. apply IH
 
 Definition quiesc (s : est) : Prop :=
   epc s = EIdle /\ inbox s = [] /\ (forall i g, nth_error (gors s) i = Some g -> g = GExit) /\
-  (forall i c, nth_error (clos s) i = Some c -> c = KRet \/ c = KStart).
+  (forall i c, nth_error (clos s) i = Some c -> c = KRet \/ c = KStart) /\ (spc s = SIdle \/ spc s = SDone).
 (* some Close() has returned: a closer thread's, or one that took the half-close branch (the only way
    a Close() issued inside OnData returns) *)
 Definition close_returned (s : est) : Prop := (exists i, nth_error (clos s) i = Some KRet) \/ khalf s = true.
@@ -537,25 +638,28 @@ Qed.
 Lemma flush_closed s : st s <> c_streamOpened -> flush_res s = RErrStreamClosed.
 Proof. intros H. unfold flush_res. destruct (Z.eqb_spec (st s) c_streamOpened); [congruence|reflexivity]. Qed.
 
-Lemma partial_inv s :
-  InvAll s -> khalf s = false -> casfail s = false -> quiesc s -> close_returned s -> closed_ok s.
+Lemma full_inv cb0 s :
+  InvAll s -> InvK cb0 s -> quiesc s -> close_returned s -> closed_ok s.
 Proof.
-  intros HA Hk Hc [He [_ [Hg Hcl]]] Hret.
-  destruct HA as [_ [Hacc [Hn1 Hn2] Hlh _ Hsent] [Htbl _ Hret2 _] _].
-  destruct Hret as [[i Hi]|Hret]; [|congruence].
-  pose proof (cz_pos_in c_ret (clos s) i KRet Hi eq_refl) as Hpos.
-  rewrite Hk, Hc in *. cbn [b2z] in *.
-  assert (Hst : st s = c_streamClosed) by lia.
+  intros HA HK [He [_ [Hg [Hcl Hsp]]]] Hret.
+  destruct HA as [_ [Hacc [Hn1 Hn2] Hsent] [Htbl _ _] _ _].
+  destruct HK as [[_ _ _ _ _ Hkh _ _] [_ HR Hret2]]. unfold Wg in HR.
   assert (G0 : forall f, f GExit = false -> cz f (gors s) = 0).
   { intros f Hf. apply cz_all_false. intros j g Hj. rewrite (Hg j g Hj). exact Hf. }
   assert (C0 : forall f, f KRet = false -> f KStart = false -> cz f (clos s) = 0).
   { intros f H1 H2. apply cz_all_false. intros j c Hj. destruct (Hcl j c Hj) as [->| ->]; auto. }
+  assert (Hsb : s_proxy (spc s) = 0) by (destruct Hsp as [-> | ->]; reflexivity).
+  rewrite (G0 g_w), (C0 c_busy), He, Hsb in HR by reflexivity. cbn [e_proxy] in HR.
+  assert (Hst : st s = c_streamClosed).
+  { destruct Hret as [[i Hi]|Hret].
+    - pose proof (cz_pos_in c_ret (clos s) i KRet Hi eq_refl). lia.
+    - rewrite Hret in Hkh. cbn [b2z] in Hkh. lia. }
   rewrite (G0 (gl c_pendcb)), (C0 c_pendcb), He in Hacc by reflexivity.
   rewrite (G0 (gl c_send)), (C0 c_send) in Hsent by reflexivity.
   specialize (Htbl Hst). rewrite (G0 (gl c_cleanT)), (C0 c_cleanT) in Htbl by reflexivity.
-  pose proof (b2z_range (lhalf s)) as Hr.
   assert (Hne : st s <> c_streamOpened) by (uc; lia).
-  destruct (Z.eqb_spec (st s) c_streamOpened); [congruence|]. cbn [e_halfn] in Hacc.
+  destruct (Z.eqb_spec (st s) c_streamOpened); [congruence|].
+  destruct (Z.eqb_spec (st s) v_streamLocalHalfClosed); [uc; lia|]. cbn [e_halfn b2z] in Hacc.
   unfold closed_ok. split; [exact Hst|]. split.
   { destruct (intable s); simpl in Htbl; [lia|reflexivity]. }
   split; [apply flush_closed; auto|]. split; [apply read_not_blocked; auto|].
@@ -568,12 +672,13 @@ Let s0 := init cb0 inb ncl_ scr ups.
 
 Theorem monotone sched sched' :
   let s := run sched s0 in let s' := run sched' s in
-  (st s = c_streamOpened \/ st s = c_streamHalfClosed \/ st s = c_streamClosed) /\
+  (st s = c_streamOpened \/ st s = c_streamHalfClosed \/ st s = v_streamLocalHalfClosed \/ st s = c_streamClosed) /\
   (st s = c_streamClosed -> st s' = c_streamClosed) /\
-  (st s = c_streamHalfClosed -> st s' = c_streamHalfClosed \/ st s' = c_streamClosed).
+  (st s = c_streamHalfClosed -> st s' = c_streamHalfClosed \/ st s' = c_streamClosed) /\
+  (st s = v_streamLocalHalfClosed -> st s' = v_streamLocalHalfClosed \/ st s' = c_streamClosed).
 Proof.
   intros s s'. pose proof (runAll sched s0 (initAll _ _ _ _ _)) as HA. fold s in HA.
-  destruct HA as [[_ _ _ _ _ Hst _] _ _ _].
+  destruct HA as [[_ _ _ Hst _] _ _ _ _].
   pose proof (run_mono sched' s) as Hm. fold s' in Hm. unfold mono in Hm. uc. lia.
 Qed.
 
@@ -583,8 +688,9 @@ Theorem callbacks_at_most_once sched :
   (st s = c_streamOpened -> nlocal s + nremote s = 0) /\ ncl (out s) <= nlocal s.
 Proof.
   intros s. pose proof (runAll sched s0 (initAll _ _ _ _ _)) as HA. fold s in HA.
-  destruct HA as [_ [Hacc [Hn1 Hn2] Hlh _ Hsent] _ _]. czpos s.
-  destruct (Z.eqb_spec (st s) c_streamOpened); uc; repeat split; try lia.
+  destruct HA as [_ [Hacc [Hn1 Hn2] Hsent] _ _ _]. czpos s.
+  destruct (Z.eqb_spec (st s) c_streamOpened); destruct (Z.eqb_spec (st s) v_streamLocalHalfClosed);
+    cbn [b2z] in Hacc; uc; repeat split; try lia.
 Qed.
 
 Theorem final_flush sched i :
@@ -593,7 +699,7 @@ Theorem final_flush sched i :
   st s <> c_streamOpened /\ flush_res s = RErrStreamClosed /\ read_res s <> RBlocked.
 Proof.
   intros s Hi. pose proof (runAll sched s0 (initAll _ _ _ _ _)) as HA. fold s in HA.
-  destruct HA as [_ _ [_ Hret _ _] _].
+  destruct HA as [_ _ [_ Hret _] _ _].
   assert (Hst : st s <> c_streamOpened).
   { intros E. specialize (Hret E). pose proof (cz_pos_in c_ret (clos s) i KRet Hi eq_refl). lia. }
   split; [auto|split; [apply flush_closed|apply read_not_blocked]]; auto.
@@ -606,22 +712,25 @@ Theorem peer sched :
   (recv s ++ concat (pending s) = [] -> read_res s = REndOfStream).
 Proof.
   intros s Hp He. pose proof (runAll sched s0 (initAll _ _ _ _ _)) as HA. fold s in HA.
-  destruct HA as [_ _ [_ _ _ Hpeer] _].
+  destruct HA as [_ _ [_ _ Hpeer] _ _].
   assert (Hst : st s <> c_streamOpened).
   { destruct (Hpeer Hp) as [H|H]; auto. destruct (epc s); simpl in H; try lia. congruence. }
   repeat split; auto; [apply flush_closed|apply read_not_blocked|]; auto.
   intros Hn. unfold read_res. rewrite Hn. destruct (Z.eqb_spec (st s) c_streamOpened); [congruence|reflexivity].
 Qed.
 
-Theorem partial sched :
-  let s := run sched s0 in
-  khalf s = false -> casfail s = false -> quiesc s -> close_returned s -> closed_ok s.
-Proof. intros s. apply partial_inv. apply (runAll sched s0 (initAll _ _ _ _ _)). Qed.
+(* the full statement: at quiescence after a returned Close() — from any goroutine, inside or during OnData,
+   racing the peer's close notification, repeated — the stream is closed, out of the table, reported exactly
+   once, and the peer was told unless it had told us *)
+Theorem full sched :
+  cb_stable cb0 sched ->
+  let s := run sched s0 in quiesc s -> close_returned s -> closed_ok s.
+Proof.
+  intros Hs s. apply (full_inv cb0).
+  - apply (runAll sched s0 (initAll _ _ _ _ _)).
+  - apply runK; [exact Hs|apply initAll|apply initK].
+Qed.
 End C10.
-
-(* the full statement and its refutation *)
-Definition C10_full_stmt : Prop := forall cb0 inb ncl_ scr ups sched,
-  let s := run sched (init cb0 inb ncl_ scr ups) in quiesc s -> close_returned s -> closed_ok s.
 
 (* ---------- two ends ---------- *)
 Lemma step_io s w :
@@ -637,31 +746,42 @@ Proof.
 Qed.
 
 Lemma inboxP x s : InvP s -> InvP (set_inbox x s).
-Proof. intros [H1 H2 H3 H4 H5 H6 H7]. constructor; cb; assumption. Qed.
+Proof. intros [H1 H2 H3 H6 H7]. constructor; cb; assumption. Qed.
 Lemma inboxA x s : InvA s -> InvA (set_inbox x s).
-Proof. intros [H1 H2 H3 H4 H5]. constructor; cb; assumption. Qed.
+Proof. intros [H1 H2 H3]. constructor; cb; assumption. Qed.
 Lemma inboxT x s : InvT s -> InvT (set_inbox x s).
-Proof. intros [H1 H2 H3 H4]. constructor; cb; assumption. Qed.
+Proof. intros [H1 H2 H3]. constructor; cb; assumption. Qed.
 Lemma inboxL x s : InvL s -> InvL (set_inbox x s).
 Proof. intros [H1 H2 H3]. constructor; cb; assumption. Qed.
+Lemma inboxC x s : InvC s -> InvC (set_inbox x s).
+Proof. intros [H1 H2 H3 H4]. constructor; cb; assumption. Qed.
 Lemma inboxR x s : InvR s -> InvR (set_inbox x s).
 Proof. intros [H1]. constructor; cb; assumption. Qed.
+Lemma inboxK cb0 x s : InvK cb0 s -> InvK cb0 (set_inbox x s).
+Proof.
+  intros [[H1 H2 H3 H4 H5 H6 H7 H8] [H9 H10 H11]]. constructor; constructor; unfold Wg in *; cb; assumption.
+Qed.
 Lemma inboxAll x s : InvAll s -> InvAll (set_inbox x s).
-Proof. intros [H1 H2 H3 H4]. constructor; [apply inboxP|apply inboxA|apply inboxT|apply inboxL]; auto. Qed.
+Proof. intros [H1 H2 H3 H4 H5]. constructor; [apply inboxP|apply inboxA|apply inboxT|apply inboxL|apply inboxC]; auto. Qed.
 
-Record WInv (w : world) : Prop := {
-  w_a : InvAll (wa w); w_b : InvAll (wb w); w_ra : InvR (wa w); w_rb : InvR (wb w);
+Record WInv (cba : bool) (w : world) : Prop := {
+  w_a : InvAll (wa w); w_b : InvAll (wb w); w_ra : InvR (wa w); w_rb : InvR (wb w); w_ka : InvK cba (wa w);
   w_ab : processed (wb w) ++ inbox (wb w) = out (wa w);
   w_ba : processed (wa w) ++ inbox (wa w) = out (wb w) }.
 
-Lemma wstepI w x : WInv w -> WInv (wstep w x).
+(* on end A callbacks are installed from the start, or SetCallbacks is not called on A during the run *)
+Definition wcb_stable (cba : bool) (sched : list (side * who)) : Prop := cba = true \/ ~ In (SA, WSet) sched.
+
+Lemma wstepI cba w x : (cba = true \/ x <> (SA, WSet)) -> WInv cba w -> WInv cba (wstep w x).
 Proof.
-  intros [Ha Hb Ra Rb Hab Hba]. destruct x as [[|] t]; unfold wstep; cbn [fst snd].
+  intros Hx [Ha Hb Ra Rb Ka Hab Hba]. destruct x as [[|] t]; unfold wstep; cbn [fst snd].
   - destruct (step_io (wa w) t) as [[d Hd] Hio]. constructor; cbn [wa wb].
     + apply stepAll; auto.
     + apply inboxAll; auto.
     + apply stepR; auto.
     + apply inboxR; auto.
+    + apply stepK; [|apply Ha|apply Ha|exact Ka].
+      destruct Hx as [Hx|Hx]; [left; auto|right; intros ->; apply Hx; reflexivity].
     + cb. rewrite (newout_app _ _ _ Hd), app_assoc, Hab, Hd. reflexivity.
     + cb. rewrite Hio. exact Hba.
   - destruct (step_io (wb w) t) as [[d Hd] Hio]. constructor; cbn [wa wb].
@@ -669,41 +789,42 @@ Proof.
     + apply stepAll; auto.
     + apply inboxR; auto.
     + apply stepR; auto.
+    + apply inboxK; auto.
     + cb. rewrite Hio. exact Hab.
     + cb. rewrite (newout_app _ _ _ Hd), app_assoc, Hba, Hd. reflexivity.
 Qed.
-Lemma winitI cba cbb na nb sa sb ua ub : WInv (winit cba cbb na nb sa sb ua ub).
-Proof. constructor; cbn; try apply initAll; try apply initR; reflexivity. Qed.
-Lemma wrunI sched w : WInv w -> WInv (wrun sched w).
-Proof. revert w; induction sched as [|x l IH]; simpl; intros w H; auto. apply IH, wstepI, H. Qed.
+Lemma winitI cba cbb na nb sa sb ua ub : WInv cba (winit cba cbb na nb sa sb ua ub).
+Proof. constructor; cbn; try apply initAll; try apply initR; try apply initK; reflexivity. Qed.
+Lemma wrunI cba sched w : wcb_stable cba sched -> WInv cba w -> WInv cba (wrun sched w).
+Proof.
+  revert w; induction sched as [|x l IH]; simpl; intros w Hs H; auto. apply IH.
+  - destruct Hs as [Hs|Hs]; [left; auto|right; intros Hi; apply Hs; right; exact Hi].
+  - apply wstepI; auto. destruct Hs as [Hs|Hs]; [left; auto|right; intros ->; apply Hs; left; reflexivity].
+Qed.
 
-(* a Close() on end A that finds no callback in process and wins its CAS reaches the peer: once B's event
-   loop has drained its inbox, B's stream has left `opened` *)
+(* a Close() on end A reaches the peer: once B's event loop has drained its inbox, B's stream has left `opened` *)
 Theorem propagates cba cbb na nb sa sb ua ub sched :
+  wcb_stable cba sched ->
   let w := wrun sched (winit cba cbb na nb sa sb ua ub) in
-  khalf (wa w) = false -> casfail (wa w) = false -> quiesc (wa w) -> close_returned (wa w) ->
+  quiesc (wa w) -> close_returned (wa w) ->
   inbox (wb w) = [] -> epc (wb w) = EIdle ->
   st (wb w) <> c_streamOpened /\ flush_res (wb w) = RErrStreamClosed /\ read_res (wb w) <> RBlocked.
 Proof.
-  intros w Hk Hc Hq Hr Hin He.
-  pose proof (wrunI sched _ (winitI cba cbb na nb sa sb ua ub)) as HW. fold w in HW.
-  destruct HW as [Ha Hb Ra Rb Hab Hba].
+  intros Hs w Hq Hr Hin He.
+  pose proof (wrunI cba sched _ Hs (winitI cba cbb na nb sa sb ua ub)) as HW. fold w in HW.
+  destruct HW as [Ha Hb Ra Rb Ka Hab Hba].
   assert (Hst : st (wb w) <> c_streamOpened).
-  { pose proof Ha as Ha0. destruct Ha as [_ [_ [An1 An2] _ _ Asent] [_ _ Aret2 _] _].
-    destruct Hb as [_ [Bacc [Bn1 Bn2] _ _ Bsent] [_ _ _ Bpeer] _].
+  { assert (HA : (nremote (wa w) = 1 /\ ncl (out (wa w)) = 0) \/ (nlocal (wa w) = 1 /\ ncl (out (wa w)) = 1)).
+    { destruct (full_inv cba (wa w) Ha Ka Hq Hr) as [_ [_ [_ [_ [_ H]]]]]. exact H. }
+    destruct Hb as [_ [Bacc [Bn1 Bn2] Bsent] [_ _ Bpeer] _ _].
     destruct Ra as [Ra].
-    (* what A knows at closed quiescence *)
-    assert (HA : (nremote (wa w) = 1 /\ ncl (out (wa w)) = 0) \/ (nlocal (wa w) = 1 /\ ncl (out (wa w)) = 1)).
-    { destruct (partial_inv (wa w) Ha0 Hk Hc Hq Hr) as [_ [_ [_ [_ [_ H]]]]]. exact H. }
     destruct HA as [[Hrem _]|[_ Hsent]].
-    - (* A was told by B: B passed its OnLocalClose site, so B is not open *)
-      destruct Hq as [Qe _]. rewrite Qe in Ra. cbn [e_halfn e_half] in Ra.
+    - destruct Hq as [Qe _]. rewrite Qe in Ra. cbn [e_halfn e_half] in Ra.
       assert (Hp : ncl (processed (wa w)) >= 1) by lia.
       assert (Ho : ncl (out (wb w)) >= 1).
       { rewrite <- Hba, ncl_app. pose proof (ncl_nonneg (inbox (wa w))). lia. }
       czpos (wb w). intros E. rewrite E in Bacc. cbn in Bacc. uc. cbn in Bacc. lia.
-    - (* A told B and B has handled it *)
-      rewrite Hin, app_nil_r in Hab. rewrite <- Hab in Hsent.
+    - rewrite Hin, app_nil_r in Hab. rewrite <- Hab in Hsent.
       destruct (Bpeer ltac:(lia)) as [H|H]; auto. rewrite He in H. simpl in H. lia. }
   split; [auto|split; [apply flush_closed|apply read_not_blocked]]; auto.
 Qed.
